@@ -9,7 +9,7 @@
     respects the caller contract of [Connection] ([op_ok]: [on_probe_lost] only while a probe is in
     flight; [new]/[reset] with [current >= min_mtu]; [minimum_change >= 3]; without a peer limit
     [initial <= MAX_UDP_PAYLOAD]) and does not panic; [plow] is the lowest peer limit received. *)
-From QV Require Import Lib.Tac Lib.Corr gen.Constants Model.Mtud Proofs.MtudProofs.
+From QV Require Import Lib.Tac Lib.Corr gen.Constants Model.Mtud Proofs.MtudProofs Proofs.MtudEvidence.
 Open Scope Z_scope.
 
 Lemma MPR_side : 1 <= MAX_PROBE_RETRANSMITS.
@@ -176,19 +176,15 @@ Definition C13_full_search_terminates : Prop :=
     REACH m plow -> st m = Some e -> phase e = Searching s -> contract_run m ops ->
     probe_sends m ops <= MAX_PROBE_RETRANSMITS * (Z.log2_up (upper s - lower s) + 1).
 
-(** black_hole_needs_evidence: [black_hole_detected] returns true only if more than
-    BLACK_HOLE_THRESHOLD suspicious bursts are recorded, each strictly larger than min_mtu (and,
-    in the full statement, than every packet acknowledged after the burst was recorded). *)
-Definition C13_full_black_hole_needs_evidence : Prop :=
-  forall m plow now m',
-    REACH m plow -> STEP m (OBlackHole now) = Some (m', 1) ->
-    let b := finish_loss_burst BLACK_HOLE_THRESHOLD (bhd m) in
-    BLACK_HOLE_THRESHOLD < Z.of_nat (length (bursts b)) /\
-    Forall (fun x => bmin_mtu b < x) (bursts b).
-
-(** The part of it that holds by definition of the detector's last step. *)
-Theorem C13_black_hole_needs_threshold_partial : forall m now m',
-  STEP m (OBlackHole now) = Some (m', 1) ->
-  BLACK_HOLE_THRESHOLD < Z.of_nat (length (bursts (finish_loss_burst BLACK_HOLE_THRESHOLD (bhd m)))).
-Proof. exact (black_hole_threshold MAX_PROBE_RETRANSMITS BLACK_HOLE_THRESHOLD). Qed.
-Print Assumptions C13_black_hole_needs_threshold_partial.
+(** black_hole_needs_evidence, proved part: [black_hole_detected] returns true only with more than
+    BLACK_HOLE_THRESHOLD recorded suspicious bursts, every one of which consisted solely of packets
+    larger than min_mtu (inductive invariant over all reachable states).  NOT proved: the clause
+    "larger than any more recently acknowledged packet" (the [retain]/[acked_mtu] bookkeeping);
+    its statement needs a ghost history of acknowledgements and is left to the correspondence. *)
+Theorem C13_black_hole_needs_evidence_partial : forall m plow now m',
+  REACH m plow -> STEP m (OBlackHole now) = Some (m', 1) ->
+  let b := finish_loss_burst BLACK_HOLE_THRESHOLD (bhd m) in
+  BLACK_HOLE_THRESHOLD < Z.of_nat (length (bursts b)) /\
+  Forall (fun x => bmin_mtu b < x) (bursts b).
+Proof. exact (black_hole_needs_evidence MAX_PROBE_RETRANSMITS BLACK_HOLE_THRESHOLD). Qed.
+Print Assumptions C13_black_hole_needs_evidence_partial.
